@@ -186,6 +186,37 @@ theorem requests_linear_in_input_partial {I : InputOps Bytes} (hI : PlainIn I) (
     Nat.mul_le_mul_left _ (Nat.sub_le _ _)
   omega
 
+/-- **The public `decode_vec_with_len::<T>(input, len)` called directly**, with ANY `len` (no
+    `Compact<u32>` prefix restrains it — 2^32, `usize::MAX`, anything) and any byte string: what is
+    requested is bounded by the bytes consumed, exactly as for `Vec<T>`; `len` does not occur in the
+    bound. (`_partial`: elements must consume at least one byte — finding F4 again.) -/
+theorem decode_vec_with_len_any_len_partial {I : InputOps Bytes} (hI : PlainIn I) (sz : Nat) (t : Ty)
+    (hm : 1 ≤ minLen t) (hp : productive t = true) (hl : layoutOk t = true) (hsz : sz ≤ maxPrealloc)
+    (len : Nat) (bs : Bytes) :
+    (run (traceRec I) (decodeVecWithLen sz t (decodeR t) len) (bs, [])).2.1.length ≤ bs.length ∧
+    allocTotal (run (traceRec I) (decodeVecWithLen sz t (decodeR t) len) (bs, [])).2.2 ≤
+      (reqRatio t + baseMem t + elemSize sz t) *
+        (bs.length - (run (traceRec I) (decodeVecWithLen sz t (decodeR t) len) (bs, [])).2.1.length)
+      + (baseMem t + reqAllow t + maxPrealloc) := by
+  have hitem := (reqBnd_decodeR hI t hp hl).productive hm
+  obtain ⟨c, h1, _, h3⟩ := ReqBnd.decodeVecWithLen hI hsz t hitem hm len bs []
+  have hc : bs.length - (run (traceRec I) (decodeVecWithLen sz t (decodeR t) len) (bs, [])).2.1.length = c := by omega
+  rw [hc]
+  exact ⟨by omega, by simpa [allocTotal] using h3⟩
+
+/-- A byte count that overflows `usize` is refused before anything is requested or read
+    (`len.checked_mul(size_of::<T>())`), over any input. -/
+theorem decode_vec_with_len_overflow_refused {σ : Type} (I : InputOps σ) (sz : Nat) (p : Prim) (item : Prog Val)
+    (len : Nat) (h : usizeMax < len * p.size) (s : σ) :
+    run I (decodeVecWithLen sz (.prim p) item len) s = (.err, s) := by
+  have hp := (prim_size_bounds p).2
+  simp only [decodeVecWithLen, run, runBulk]
+  have h1 : ¬ p.size > maxPrealloc := by omega
+  simp only [h1, if_false, h, if_true]
+
+example : run sliceInput (decodeVecWithLen 8 (.prim .u64) (decodeP (.prim .u64)) (2 ^ 61)) [1, 2, 3] = (.err, [1, 2, 3]) := by
+  rw [decode_vec_with_len_overflow_refused]; decide
+
 /-- **Every single request is small**, over ANY input implementation and for EVERY type (productive
     or not): at most one preallocation chunk, or one fixed-size pointee / list node of the type. -/
 theorem every_request_small {σ : Type} (I : InputOps σ) (ty : Ty) (hl : layoutOk ty = true) (s : σ) (n : Nat)
